@@ -69,6 +69,30 @@ class _StubPool:
         return [f(a) for a in args]
 
 
+class _Tqdm:
+    """Stands for tqdm in both of its usages: wrapping an iterable, or as a manually updated bar."""
+    def __init__(self, iterable=None, *a, **k):
+        self.iterable = iterable
+
+    def __iter__(self):
+        return iter(self.iterable if self.iterable is not None else [])
+
+    def __enter__(self):
+        return self
+
+    def __exit__(self, *a):
+        return False
+
+    def update(self, *a, **k):
+        pass
+
+    def close(self):
+        pass
+
+    def set_description(self, *a, **k):
+        pass
+
+
 class _Path:
     def __init__(self, p):
         self.p = p
@@ -85,7 +109,7 @@ def _run(n, two, broken, exc):
         behaviors[NAMES[i]] = parts
     saved = (P.Lark, P.Pool, P.tqdm, P.Conf.get_path)
     P.Lark, P.Pool = _StubLark, _StubPool
-    P.tqdm = lambda it, **k: it
+    P.tqdm = _Tqdm
     P.Conf.get_path = staticmethod(lambda *a, **k: "/dev/null")
     P.open = lambda *a, **k: io.StringIO("start: fbody\n")  # module-level name shadows the builtin: no file access
     try:
